@@ -235,6 +235,10 @@ def parse_obs(o):
                 res["rib6"][e[0]] = [(p[0], p[1] == "1") for p in e[1:]]
         elif it[0] == "adjraw":
             res.setdefault("adjraw", {})[it[1]] = {e[0].split("#")[0]: (e[1] if len(e) > 1 else "") for e in it[2:]}
+        elif it[0] == "summary":
+            res["summary"] = {(e[0] if e[0] == "global" else e[1]): [int(x) if str(x).isdigit() else x for x in (e[1:] if e[0] == "global" else e[2:])] for e in it[1:]}
+        elif it[0] == "lookup":
+            res["lookup"] = {(e[0], e[1]): sorted(e[2:]) for e in it[1:]}
         elif it[0] == "adjin":
             res["adjin"][it[1]] = ["%s %s" % (e[0], e[3] if len(e) > 3 else "") for e in it[2:]]
             res["adjin_raw"][it[1]] = [(e[0].split("#")[0], e[1] == "1", e[3] if len(e) > 3 else "") for e in it[2:]]
@@ -328,6 +332,47 @@ def gen_scenario(rng, nsteps=None, kinds=("ebgp", "ibgp", "rr"), addpath=0.0):
     return {"peers": peers, "events": ev}
 
 
+def gen_coalesce(rng):
+    """Sender coalescing: a receiving peer stops reading (its TCP window is closed), several changes of the same few
+    destinations queue up for it -- the sender merges the queued batches and the packer keeps the last action per
+    destination --, then it reads again.  What it holds afterwards must be the export of the Loc-RIB, as always."""
+    nsrc = rng.choice([2, 2, 3])
+    peers = []
+    for i in range(nsrc + 1):
+        kind = rng.choice(["ebgp", "ebgp", "ibgp", "rr"])
+        peers.append(Peer("p%d" % i, "10.0.0.%d" % (i + 1), LOCAL_AS if kind != "ebgp" else 65001 + i, kind))
+    if rng.random() < 0.3:
+        kind = rng.choice(["ebgp", "rr"])
+        peers.append(Peer("p%d" % (nsrc + 1), "10.0.0.%d" % (nsrc + 2), LOCAL_AS if kind != "ebgp" else 65009, kind, sendmax=rng.choice([1, 2, 3])))
+    recv = [p for p in peers[nsrc:]]
+    pool = rng.sample(PREFIXES, rng.choice([1, 2, 3]))
+    ev = [("up", p.name) for p in peers]
+    local = {}
+    for _ in range(rng.choice([1, 2, 3])):
+        stalled = rng.sample(recv, rng.choice([1, len(recv)]))
+        for p in stalled:
+            ev.append(("stall", p.name))
+        for _ in range(rng.choice([3, 5, 8, 12])):
+            r = rng.random()
+            s = peers[rng.randrange(nsrc)]
+            if r < 0.6:
+                ev.append(("ann", s.name, rng.choice(pool), gen_attrs(rng, s)))
+            elif r < 0.85:
+                ev.append(("wd", s.name, rng.choice(pool)))
+            else:
+                pf = rng.choice(pool)
+                if pf in local and rng.random() < 0.5:
+                    ev.append(("apidel", pf, local.pop(pf)))
+                else:
+                    a = gen_attrs(rng, None)
+                    ev.append(("apiadd", pf, a))
+                    local[pf] = a
+        for p in stalled:
+            ev.append(("resume", p.name))
+        ev.append(("obs",))
+    return {"peers": peers, "events": ev}
+
+
 def gen_ap_churn(rng, tight=None):
     """ADD-PATH stress: one or two prefixes, three or four sources, one ADD-PATH peer with a small send-max; mostly
     announcements and withdrawals, so that paths are held back, promoted, and path identifiers recycled."""
@@ -411,6 +456,8 @@ def sim_line(sc):
             steps.append("(%s %s)" % (k, route_sx("a", e[1], e[2])))
         elif k == "sleep":
             steps.append("(sleep %d)" % e[1])
+        elif k in ("stall", "resume"):
+            steps.append("(%s %s)" % (k, e[1]))        # the peer stops / resumes reading: nothing the model or the property sees
         elif k == "obs":
             steps.append("(obs)")
     opts = {"ibgp": "", "rr": " rr", "ebgp": ""}
@@ -506,6 +553,8 @@ def canon_impl(sc, out):
             d["rib"][pf] = [(p["src"], p["attrs"]) for p in paths]
             d.setdefault("lids", {})[pf] = [p["lid"] for p in paths]
             d.setdefault("best", {})[pf] = [i for i, p in enumerate(paths) if p["best"]]
+        d["summary"] = o.get("summary")
+        d["lookup"] = o.get("lookup")
         res.append(d)
     return res, markers
 
